@@ -157,3 +157,20 @@ LEVEL_TEXT.update({
     'C18': 'Theorems over all builder call sequences (induction over the op list, generic last-set-or-default lemma) about a model whose flag setters and defaults are regenerated from the source, composed with the C01/C03 frame theorems for the handshake frame; tied to the real Builder exhaustively over short call sequences and to the real connect functions over loopback sockets.',
 })
 NOT_APPLICABLE.pop('C18', None)
+
+PROPS.update({
+    'C17': dict(gens=['files'], coq_targets=['Props/C17.vo'], coqchk_modules=['Props.C17'], group='files', harness='c17', axioms_allowed=[],
+        proved=['both parsers are total (never panic) on every byte string',
+                'parse (write f ++ t) = (f, t) for every well-formed structure: any number of nodes / objects / points / triangles / checkpoints, any numeric payload (raw bit images, NaN included); hence parse . write . parse = parse',
+                'every strict prefix of a written file is rejected (all cut points, all files), and for ANY accepted input the consumed prefix is minimal: no strict prefix of it is accepted (prefix rejection by construction of the parser combinators)',
+                'negative / >= 2^31 counts are errors; the input pays for everything delivered: nodes x 40 <= input length'],
+        modelled=['the PTH / SMX readers and writers are hand-modelled with take-only parser combinators (Files/Parser.v, Files/Formats.v); the flat field lists of every record (widths, pads, text), the magic numbers and the nesting order (which count drives which vector) are REGENERATED from the binrw declarations (Gen/FilesTab.v)',
+                  'pads are read as `take` (binrw seeks): same observable outcome because every pad is followed by a read in both formats',
+                  'real allocation is outside the model: a counting global allocator in the harness checks peak allocation <= 16 x input + 256 KB on every parse (support, not proof)',
+                  'the canonical-file clause (written bytes identical to the bytes read) is proved via the round trip for files the writer produced and checked on the implementation for generated canonical files and the two shipped files; the SMX track text is bytes here (codepage layer = C10)'],
+        assumptions=['the model driver reports OCaml Stack_overflow (unary materialisation of a count > ~10^5) as the error outcome: inputs of the correspondence runs are a few KB, so such a parse necessarily fails']),
+})
+LEVEL_TEXT.update({
+    'C17': 'Parser-combinator model whose combinators are proved once to be total, local and prefix-rejecting; the two formats inherit these by construction for every input, plus explicit round-trip and work-bound theorems; record layouts regenerated from the source. Tied to the real readers on generated files, every cut point of small files, hostile counts in every count field, random bytes and the two shipped files, under a counting allocator.',
+})
+NOT_APPLICABLE.pop('C17', None)
